@@ -27,7 +27,9 @@ ASSUMPTIONS = [
     "(all nine length pairs and all T/F mixes enumerated in constant loops), padding bytes 1..3 of the packed array header zero",
     "bounded: lists with <=3 expanded values (quick: listed shapes; thorough: every block sequence over i h T plus the c/F shapes), range "
     "blocks with rep_num 1..3, delta only for c i h, precondition start + j*delta stays inside the type; no infinite ranges (rep_num 0), "
-    "no ranges of arrays/strings/floats (see findings/c16_array_range_witness.c for ranges of arrays)",
+    "no ranges of strings/floats",
+    "bounded: ranges of arrays (C16.list_arrange_*): one delta-less block 'N x [array]', N 1..3, array of 0..2 elements of type i, h or "
+    "T/F mixed, optional plain i before/after, exact-size heap lists; third list = same structure with N-1, N, N+1 arrays and own payloads",
     "rtosc_avmessage obligations: at least one value (0 values declare a zero-length VLA: undefined), no T/F block before a payload block",
     "a read past an exact-size list/array makes an element type symbolic and CBMC then does not finish (timeout = exit 2, undecided), it is not reported as a violation",
 ]
@@ -255,8 +257,86 @@ def list_obligations(ctx):
     return obls
 
 
+# ---- ranges whose repeated value is an array: (rep, len, element type, T/F mix bits, pre, post)
+def ar_key(sh):
+    rep, n, et, mix, pre, post = sh
+    if et == "T":
+        elems = "".join("T" if (mix >> k) & 1 else "F" for k in range(n))
+    else:
+        elems = et * n
+    return "%s%dx_%s_%s" % ("p_" if pre else "", rep, elems or "empty", "p" if post else "e")
+
+
+AR_QUICK = [(1, 1, "i", 0, 0, 0), (2, 2, "i", 0, 0, 1), (3, 2, "T", 1, 1, 0), (2, 0, "i", 0, 1, 1), (3, 1, "h", 0, 0, 1)]
+
+
+def ar_shapes(tier):
+    if tier == "quick":
+        return AR_QUICK
+    out = list(AR_QUICK)
+    kinds = [(n, "i", 0) for n in range(3)] + [(n, "T", m) for n in range(3) for m in range(1 << n)]
+    for rep in (1, 2, 3):
+        for n, et, mix in kinds:
+            for pre, post in ((0, 0), (0, 1), (1, 1)):
+                out.append((rep, n, et, mix, pre, post))
+    out += [(2, 2, "h", 0, 0, 0), (1, 2, "h", 0, 1, 1), (2, 1, "h", 0, 1, 0)]
+    uniq, seen = [], set()
+    for sh in out:
+        if ar_key(sh) not in seen:
+            seen.add(ar_key(sh)); uniq.append(sh)
+    return uniq
+
+
+AR_TIMEOUT = 300
+
+
+def array_range_obligations(ctx):
+    inc = [os.path.join(ctx.repo, "src/cpp")]
+    S = "harness/C16/arrrange.c"
+    bound = ("shape-bounded: one delta-less range block 'N x [array]', N = 1..3, array of 0..2 elements (i, h, T/F mixed), optional plain "
+             "value before/after; exact-size heap lists; element payloads and the third list symbolic")
+    obls = []
+
+    def flags(sh, kxmax):
+        rep, n, et, mix, pre, post = sh
+        lb = pre + kxmax + post + 2            # iterations of the list loops of eq/cmp (+ exit check + 1)
+        # recursion list -> array -> element needs depth 2: cut at 3, so that an element type that became arbitrary
+        # (a read outside an object) ends in the pointer failure instead of unwinding eq_single <-> eq 12 deep
+        return ["--unwind", "12", "--unwinding-assertions", "--unwindset",
+                "rtosc_arg_vals_eq_single:3,rtosc_arg_vals_eq:3,rtosc_arg_vals_cmp_single:3,rtosc_arg_vals_cmp:3,"
+                "rtosc_arg_vals_eq.0:%d,rtosc_arg_vals_cmp.0:%d,memcmp.0:2,strcmp.0:2" % (lb, lb)]
+
+    def defs(sh, entry, extra=None):
+        rep, n, et, mix, pre, post = sh
+        d = srcdefs(ctx)
+        d.update({entry: None, "AR_REP": str(rep), "AR_LEN": str(n), "AR_ET": str(ord(et)), "AR_MIX": str(mix),
+                  "AR_PRE": str(pre), "AR_POST": str(post)})
+        d.update(extra or {})
+        return d
+    for sh in ar_shapes(ctx.tier):
+        key = ar_key(sh)
+        rep = sh[0]
+        case = dict(zip(("rep_num", "array length", "element type", "T/F mix bits", "plain value before", "plain value after"), sh))
+        obls.append(Obl("C16.list_arrange_eq.%s" % key, PID, S, entry="h_ar_eq", defines=defs(sh, "H_AR_EQ"), includes=inc,
+                        mode="bounded", bound=bound, cbmc=flags(sh, rep), timeout=AR_TIMEOUT, case=case))
+        obls.append(Obl("C16.list_arrange_itr.%s" % key, PID, S, entry="h_ar_itr", defines=defs(sh, "H_AR_ITR"), includes=inc,
+                        mode="bounded", bound=bound, cbmc=flags(sh, rep), timeout=AR_TIMEOUT, case=case))
+        for kx in (rep - 1, rep, rep + 1):
+            obls.append(Obl("C16.list_arrange_cmp.%s.x%d" % (key, kx), PID, S, entry="h_ar_cmp",
+                            defines=defs(sh, "H_AR_CMP", {"AR_KX_LO": str(kx), "AR_KX_HI": str(kx)}), includes=inc,
+                            mode="bounded", bound=bound, cbmc=flags(sh, rep + 1), timeout=AR_TIMEOUT,
+                            case=dict(case, arrays_in_third_list=kx)))
+    sh = (2, 2, "i", 0, 1, 1)
+    for ent, macro, extra in (("h_ar_eq", "H_AR_EQ", None), ("h_ar_itr", "H_AR_ITR", None),
+                              ("h_ar_cmp", "H_AR_CMP", {"AR_KX_LO": "2", "AR_KX_HI": "2"})):
+        obls.append(Obl("C16.canary.list_arrange_%s" % ent[5:], PID, S, entry=ent, defines=defs(sh, macro, extra), includes=inc,
+                        mode="bounded", bound=bound, cbmc=flags(sh, 3), canary=True, timeout=AR_TIMEOUT))
+    return obls
+
+
 LIST_TIMEOUT = 600
 
 
 def obligations(ctx):
-    return scalar_obligations(ctx) + strblob_obligations(ctx) + array_obligations(ctx) + list_obligations(ctx)
+    return (scalar_obligations(ctx) + strblob_obligations(ctx) + array_obligations(ctx) + list_obligations(ctx)
+            + array_range_obligations(ctx))
